@@ -440,7 +440,7 @@ func runHistories(r *ev.Run) {
 		// old deposit and also carrying enough yes votes, closes after the first one was executed
 		variants = append(variants, chain.GenesisOptions{EpochInterval: 2, NodeExpiration: 14, Prefix: []string{"gov-submit-mindeposit(e1,500)", "gov-vote(e2,#1,yes)", "gov-vote(e1,#1,yes)", "gov-submit-upgrade(e0)", "gov-vote(e2,#2,yes)", "gov-vote(e1,#2,yes)"}})
 	}
-	if prop == "C10" || prop == "C01" {
+	if prop == "C10" || (prop == "C01" && r.Thorough()) {
 		// a key manager runtime (no TEE hardware) served by all nodes: node re-registrations with every kind of
 		// enclave init response, master / ephemeral secret publication, policy updates; before and at 26.1
 		variants = append(variants, chain.GenesisOptions{KeyManager: true, EpochInterval: 2, NodeExpiration: 30, Escrow: []uint64{3000, 3000, 3000}})
